@@ -182,6 +182,11 @@ func (p Precompile) TokenFromInputs(ctx sdk.Context, args []interface{}) (assets
 		return assetstypes.AssetInfo{}, oracletypes.OracleInfo{}, fmt.Errorf(exocmn.ErrContractInputParaOrType, 2, "uint8", args[2])
 	}
 	// #nosec G115
+	// checked here, before anything is registered: the oracle token and feeder are set up before the
+	// asset itself is stored, and a failure is reported as `false` without reverting.
+	if uint32(decimal) > assetstypes.MaxDecimal {
+		return assetstypes.AssetInfo{}, oracletypes.OracleInfo{}, fmt.Errorf(exocmn.ErrContractInputParaOrType, 2, "uint8 not greater than 18", decimal)
+	}
 	asset.Decimals = uint32(decimal)
 
 	name, ok := args[3].(string)
